@@ -318,6 +318,39 @@ def rule_server(ctx):
                 used = set().union(*[under_len_only(a, names) for a in sink_args(c)]) if sink_args(c) else set()
                 ctx.ob("C20.HANDLER", c, f"{cls}.{fn.name}: log call does not depend on its arguments", not used,
                        f"{cls}.{fn.name} logs its argument(s) {sorted(used)}", construct=f"{cls}.{fn.name}:log uses argument")
+    # authenticate(): the supplied password is only compared - a conversion or call that can fail with the value in its message (int(), type(x)(...), a parser) ends up in
+    # the dispatcher's logger.exception
+    for cls in ("MemoryUserManager",):
+        au = p.methods(cls).get("authenticate")
+        if au is None or len(au.args.args) < 3:
+            continue
+        pw = au.args.args[2].arg
+        tainted = taint_names(au, {pw})
+        for c in walk_no_nested(au):
+            if isinstance(c, ast.Call) and any(under_len_only(a, tainted) for a in list(c.args) + [k.value for k in c.keywords]):
+                fname = dotted(c.func) or src(c.func)
+                ok = fname.split(".")[-1] in ("compare_digest", "encode", "len", "str", "bytes", "hash", "sha256", "sha512", "blake2b", "pbkdf2_hmac", "scrypt", "isinstance")
+                ctx.ob("C20.HANDLER", c, f"{cls}.authenticate hands the supplied password only to comparison / hashing ({fname})", ok,
+                       f"{cls}.authenticate passes the supplied password to `{src(c)[:40]}`: if that call fails its message carries the password "
+                       "(`invalid literal for int(): '<password>'`) and the dispatcher's logger.exception() writes it to the server log", construct=f"authenticate:password passed to {fname[:30]}")
+    # the guard decorators see the raw argument of every command (PASS included): none of their replies or logs may carry it
+    for deco in ("ConnectionConditions", "PathConditions", "PathPermissions"):
+        try:
+            w = p.wrapper_of(deco)
+        except AnalysisError:
+            continue
+        wp = [a.arg for a in w.args.args]
+        if len(wp) < 3:
+            continue
+        tw = taint_names(w, {wp[2]})
+        for c in walk_no_nested(w):
+            if isinstance(c, ast.Call) and (is_reply(c) or c in logger_calls(w, nested=False)):
+                used = set()
+                for a in sink_args(c) if not is_reply(c) else list(c.args):
+                    used |= under_len_only(a, tw)
+                ctx.ob("C20.HANDLER", c, f"{deco} guard: `{src(c)[:40]}` does not carry the command argument", not used,
+                       f"the {deco} guard puts the command argument ({sorted(used)}) into a reply/log: an out-of-sequence PASS is censored by parse_command but its argument "
+                       "comes back in the 503 text, which write_line (server) and parse_line (client) log", construct=f"{deco}:reply carries argument")
     # dispatcher: logs of command results / rest
     d = p.dispatcher()
     td = set()
@@ -639,4 +672,29 @@ def rule_repr(ctx):
         ctx.floor_errors.append(f"rule=C20.REPR: {n_sites} rendering sites (floor 10)")
 
 
-RULES = [rule_server, rule_client, rule_new, rule_repr]
+def rule_line_exc(ctx):
+    p = ctx.p
+    ctx.rule("C20.LINE", "no exception raised on the way of a control line (StreamIO.readline/read, Server.parse_command) carries the line's content: whatever is raised there is logged by the "
+                         "dispatcher's logger.exception() before the censor has seen the line")
+    sites = [("StreamIO", "readline"), ("StreamIO", "read"), ("ThrottleStreamIO", "readline"), ("ThrottleStreamIO", "read"), ("Server", "parse_command")]
+    n = 0
+    for cls, name in sites:
+        fn = p.methods(cls).get(name) if cls in p.classes else None
+        if fn is None:
+            continue
+        n += 1
+        seeds = set()
+        for x in walk_no_nested(fn):
+            if isinstance(x, ast.Assign) and isinstance(x.value, ast.Await) and isinstance(x.value.value, ast.Call) and isinstance(x.value.value.func, ast.Attribute) \
+                    and x.value.value.func.attr in ("readline", "read", "readexactly", "readuntil"):
+                seeds |= {t.id for t in x.targets if isinstance(t, ast.Name)}
+        t = taint_names(fn, seeds) if seeds else set()
+        bad = [r for r in walk_no_nested(fn) if isinstance(r, ast.Raise) and r.exc is not None and under_len_only(r.exc, t)]
+        ctx.ob("C20.LINE", bad[0] if bad else fn, f"{cls}.{name}: no raised exception is built from the data just read", not bad,
+               f"{cls}.{name} raises `{src(bad[0].exc)[:60] if bad else ''}` built from the bytes it read: a truncated `PASS <password>` line reaches the server log through "
+               "the dispatcher's logger.exception()", construct=f"line:{cls}.{name}:raise carries data")
+    if n < 3:
+        ctx.floor_errors.append(f"rule=C20.LINE: {n} control-line read functions (floor 3)")
+
+
+RULES = [rule_server, rule_client, rule_new, rule_repr, rule_line_exc]
